@@ -132,7 +132,8 @@ func c09Profiles(tier string) []Profile {
 	torn := &SeqProfile{Name: "torntail", Keys: keys, Depth: 0, Mon: mon, StepLimit: 400000,
 		Init: func(w *harness.World) {
 			n := harness.Choose(4400, harness.ClassOp)
-			w.Hist = append(w.Hist, fmt.Sprintf("Set(a) Flush Set(b) Flush +%d junk bytes, Reopen, Set(a), Flush", n))
+			withCopy := n%8 == 3 // every 8th length: the tail ends in a copy of the first root record
+			w.Hist = append(w.Hist, fmt.Sprintf("Set(a) Flush Set(b) Flush +%d junk bytes (root copy %v), Reopen, Set(a), Flush", n, withCopy))
 			w.SetCollection("x", "nil")
 			w.SetItem("x", kA, 1, bs("v"))
 			w.Flush()
@@ -141,6 +142,11 @@ func c09Profiles(tier string) []Profile {
 			junk := make([]byte, n)
 			for i := range junk {
 				junk[i] = byte('J' + i%7)
+			}
+			if withCopy {
+				if rs := harness.AllRoots(w.File.Data); len(rs) > 0 {
+					junk = append(junk, w.File.Data[rs[0].Off:rs[0].End]...)
+				}
 			}
 			w.File.Data = append(w.File.Data, junk...)
 			w.Reopen(true)
